@@ -35,6 +35,24 @@ def literalKey (name : Bytes) : List Bytes := splitSlash name
 
 def specDelete (objs : List Obj) (name : Bytes) : List Obj := objs.filter fun o => o.key ≠ literalKey name
 
+def specPut (spec : List Obj) (k : List Bytes) (d : List Seg) : List Obj := ⟨k, d⟩ :: spec.filter fun o => o.key ≠ k
+
+/-- CopyObject in the specification: the destination becomes a copy of the source OBJECT; when no object has the
+    source key the request must be refused (NoSuchKey) and nothing changes: `none` -/
+def specCopy (spec : List Obj) (src dst : List Bytes) : Option (List Obj) :=
+  match spec.find? (fun x => x.key == src) with
+  | some ob => some (specPut spec dst ob.data)
+  | none => none
+
+/-- judge of an acknowledged copy whose source key holds no object, over the specification's bucket:
+    the class says what the source key was instead -/
+def copyJudge (spec : List Obj) (src dst : List Bytes) (acked : Bool) : Option String :=
+  if acked && (specCopy spec src dst).isNone then
+    some (if spec.any (fun o => src.length < o.key.length && isUnder src o.key)
+          then "CopyObjectHandler/directory-source-stores-filer-listing-page"
+          else "CopyObjectHandler/missing-source-creates-empty-object")
+  else none
+
 /-- do two part lists give different objects when ordered by name vs by number? -/
 def orderMatters (parts : List Part) : Bool :=
   (parts.foldr insertByName []).map (·.no) != (parts.foldr insertByNo []).map (·.no)
